@@ -496,3 +496,76 @@ func init() {
 		return append(b11(), planItem{register(worldScenario("C11", specPreviewSharedRef, refOracle)), 2, 3})
 	}
 }
+
+// two "send everything" transactions on one account (the compiler treats [X *] sources apart from fixed amounts)
+func sendAllScript(src, dst string) string {
+	return fmt.Sprintf("send [X *] (\n  source = %s\n  destination = %s\n)\n", src, dst)
+}
+
+var (
+	specSpend2All = worldSpec{Name: "spend2-all", Seed: seedA100,
+		Gen1: []reqSpec{{Name: "s1", Kind: "create", Script: sendAllScript("@a", "@b")}, {Name: "s2", Kind: "create", Script: sendAllScript("@a", "@c")}}}
+	specSpendAllVsFixed = worldSpec{Name: "spend-all-vs-fixed", Seed: seedA100,
+		Gen1: []reqSpec{{Name: "s1", Kind: "create", Script: sendAllScript("{\n    @a\n    @z\n  }", "@b")}, create("s2", 60, "@a", "@c")}}
+	specSpend2Max = worldSpec{Name: "spend2-max", Seed: seedA100,
+		Gen1: []reqSpec{create("s1", 60, "max [X 60] from @a", "@b"), {Name: "s2", Kind: "create", Script: sendAllScript("max [X 60] from @a", "@c")}}}
+)
+
+func init() {
+	b02 := plans["C02"]
+	plans["C02"] = func() []planItem {
+		return append(b02(),
+			planItem{register(worldScenario("C02", specSpend2All, spendOracle)), 3, 4},
+			planItem{register(worldScenario("C02", specSpendAllVsFixed, spendOracle)), 3, 4},
+			planItem{register(worldScenario("C02", specSpend2Max, spendOracle)), 3, 4})
+	}
+}
+
+// C05 on writes that carry idempotency keys (the key is part of the hashed content) and on a revert
+var specKeyedAllKinds = worldSpec{Name: "keyed-all-kinds", Crash: true, Seed: seedA100,
+	Gen1: []reqSpec{{Name: "c1", Kind: "create", Script: sendScript(5, "@world", "@b"), IK: "k1"},
+		{Name: "m1", Kind: "savemeta", TargetType: ledger.MetaTargetTypeAccount, TargetID: "c", IK: "k2"},
+		{Name: "d1", Kind: "delmeta", TargetType: ledger.MetaTargetTypeTransaction, TargetID: big.NewInt(0), Key: "d1", IK: "k3"}},
+	Gen2: []reqSpec{{Name: "r0", Kind: "revert", TxID: 0, IK: "k4"}, {Name: "m2", Kind: "savemeta", TargetType: ledger.MetaTargetTypeTransaction, TargetID: big.NewInt(0), IK: "k5"}}}
+
+func init() {
+	b05 := plans["C05"]
+	plans["C05"] = func() []planItem {
+		return append(b05(),
+			planItem{register(worldScenario("C05", specKeyedAllKinds, chainOracle)), 2, 3},
+			planItem{register(worldScenario("C05", specIKMeta, chainOracle)), 2, 3},
+			planItem{register(worldScenario("C05", specIKDel, chainOracle)), 2, 3})
+	}
+}
+
+// a reference stays taken when its transaction is reverted (the reverted transaction is still a committed carrier)
+var specRefAfterRevert = worldSpec{Name: "ref-after-revert", Crash: true,
+	Seed: func(st *memstore.Store) {
+		st.Seed(ledger.NewTransactionLog(ledger.NewTransaction().WithPostings(post("world", "a", 100)).WithID(big.NewInt(0)).WithReference("r"), nil))
+	},
+	Gen1: []reqSpec{{Name: "r0", Kind: "revert", TxID: 0}, {Name: "c1", Kind: "create", Script: sendScript(5, "@world", "@b"), Ref: "r"}},
+	Gen2: []reqSpec{{Name: "c2", Kind: "create", Script: sendScript(5, "@world", "@c"), Ref: "r"}}}
+
+func init() {
+	b11 := plans["C11"]
+	plans["C11"] = func() []planItem {
+		return append(b11(), planItem{register(worldScenario("C11", specRefAfterRevert, refOracle)), 2, 3})
+	}
+}
+
+// the store goes down for good at some insertion: nothing may be acknowledged or published for entries that never got in
+var specStoreDown = worldSpec{Name: "store-goes-down", Seed: seedA100, StoreGoesDown: true,
+	Gen1: []reqSpec{create("c1", 5, "@world", "@b"), {Name: "m1", Kind: "savemeta", TargetType: ledger.MetaTargetTypeAccount, TargetID: "c"}, {Name: "r0", Kind: "revert", TxID: 0}}}
+
+func init() {
+	b06, b16, b05 := plans["C06"], plans["C16"], plans["C05"]
+	plans["C06"] = func() []planItem {
+		return append(b06(), planItem{register(worldScenario("C06", specStoreDown, ackOracle)), 2, 3})
+	}
+	plans["C16"] = func() []planItem {
+		return append(b16(), planItem{register(worldScenario("C16", specStoreDown, eventOracle)), 2, 3})
+	}
+	plans["C05"] = func() []planItem {
+		return append(b05(), planItem{register(worldScenario("C05", specStoreDown, chainOracle)), 2, 3})
+	}
+}
